@@ -261,6 +261,20 @@ class Scope:
         return self.names.get(name.lower())
 
 
+def _function_kind(toks):
+    """classify a declared function by the token shape of its declaration (the name is the compiler's choice):
+    (p: boolean) return std_logic is begin if p then return('1'); else return('0'); end if;  ->  "bool_to_sl" """
+    if not toks or len(toks) < 8 or toks[0] != "(" or toks[2] != ":":
+        return None
+    p = toks[1]
+    flat = [t for t in toks if t not in ("(", ")")]
+    want = [p, ":", "boolean", "return", "std_logic", "is", "begin", "if", p, "then", "return", "'1'", ";",
+            "else", "return", "'0'", ";", "end", "if", ";"]
+    norm = [t if t in (p,) else t for t in flat]
+    norm = ["'" + t + "'" if t in ("0", "1") else t for t in norm]
+    return "bool_to_sl" if norm == want else None
+
+
 class Design:
     def __init__(self, text, top=None, strict=True):
         self.units = parse(text)
@@ -290,6 +304,9 @@ class Design:
     def _mk_type(self, ti, scope):
         if ti[0] == "plain":
             n = ti[1].lower()
+            b = scope.lookup(n)
+            if isinstance(b, tuple) and b[0] == "type":
+                return b[1]  # a user declaration hides the predefined type of the same name
             if n == "std_logic":
                 return Ty("sl")
             if n == "boolean":
@@ -321,7 +338,7 @@ class Design:
         for d in decls:
             k = d["decl"]
             if k == "function":
-                scope.bind(d["name"], ("func", d["name"]))
+                scope.bind(d["name"], ("func", d["name"], _function_kind(d.get("tokens"))))
                 scope.decl_order.append((d["name"], "function"))
             elif k == "enumtype":
                 ty = Ty("enum", d["name"], tuple(d["lits"]))
@@ -697,11 +714,11 @@ class Design:
             self._note_read(b, pr)
             return self._index(self._read_ref(b, pr), self._eval_int(args[0], scope, pr))
         if b is not None and b[0] == "func":
-            if f != "cohdl_bool_to_std_logic":
+            if len(b) < 3 or b[2] != "bool_to_sl" or len(args) != 1:
                 raise VhdlTypeError(f"unknown function {fname}")
             v = self._eval(args[0], scope, pr)
             if not isinstance(v, bool):
-                raise VhdlTypeError("cohdl_bool_to_std_logic applied to non-boolean")
+                raise VhdlTypeError(f"{fname} applied to non-boolean")
             return SL("1" if v else "0")
         if b is not None:
             raise VhdlTypeError(f"{fname} is hidden by a user declaration and cannot be called")
